@@ -6,6 +6,7 @@ import (
 	stderrors "errors"
 	"fmt"
 	"io"
+	"net"
 	"strings"
 	"testing"
 
@@ -18,6 +19,9 @@ import (
 )
 
 var sentinel = stderrors.New("verif: injected transport failure")
+
+// a transport error that is itself a standard-library wrapper: the root cause asked for is this very value
+var sentinelOp error = &net.OpError{Op: "read", Net: "tcp", Err: fmt.Errorf("verif: %w", stderrors.New("connection reset by peer"))}
 
 func isEOF(err error) bool {
 	c := oe.Cause(err)
@@ -83,6 +87,7 @@ func TestVerif_C08_FlvRead(t *testing.T) {
 		if m.WantSample() {
 			m.Sample(map[string]interface{}{"case": i, "length": N, "tag_ends": ends})
 		}
+		var wantErr error = sentinel
 		check := func(sig string, delivered int, hdrOK bool, tags []refflv.Tag, err error, wantSentinel bool) bool {
 			if err == nil {
 				m.Violationf(sig+":nil-error", rep, "demuxer reported no error although the transport failed after %d bytes", delivered)
@@ -108,8 +113,8 @@ func TestVerif_C08_FlvRead(t *testing.T) {
 					return false
 				}
 			}
-			if wantSentinel && oe.Cause(err) != sentinel {
-				m.Violationf(sig+":root-cause-lost", rep, "root cause %T %q", oe.Cause(err), oe.Cause(err))
+			if wantSentinel && oe.Cause(err) != wantErr {
+				m.Violationf(sig+":root-cause-lost", rep, "root cause %T %q, not the transport's %T", oe.Cause(err), oe.Cause(err), wantErr)
 				return false
 			}
 			if !wantSentinel && !isEOF(err) {
@@ -127,6 +132,12 @@ func TestVerif_C08_FlvRead(t *testing.T) {
 				if !check("c08:flv-cut", c, hdrOK, tags, err, false) {
 					return
 				}
+				// the same cut with the last bytes and io.EOF in one Read
+				hdrOK, tags, err = demux(&vnet.CutReader{Data: data, Cut: c, Seg: vnet.PickSeg(r), DataWithErr: true})
+				m.Count("cut_offsets_data_with_eof", 1)
+				if !check("c08:flv-cut:data+eof", c, hdrOK, tags, err, false) {
+					return
+				}
 			}
 			m.Classf("cuts/tags%d", len(f.Tags))
 		})
@@ -142,11 +153,18 @@ func TestVerif_C08_FlvRead(t *testing.T) {
 					m.Case()
 					m.Count("read_call_indexes_enumerated", 1)
 					rep["fail_read_call"], rep["seg"] = k, si
-					rd := &vnet.CutReader{Data: data, Cut: N, Seg: mk(), Err: sentinel, FailAtCall: k}
+					variant := k % 4 // 0: (0,err); 1: (n,err); 2: (0,err) std-wrapper error; 3: (n,err) std-wrapper error
+					wantErr = sentinel
+					if variant >= 2 {
+						wantErr = sentinelOp
+					}
+					rd := &vnet.CutReader{Data: data, Cut: N, Seg: mk(), Err: wantErr, FailAtCall: k, DataWithErr: variant%2 == 1}
 					hdrOK, tags, err := demux(rd)
-					if !check("c08:flv-read-fault", rd.Offset(), hdrOK, tags, err, true) {
+					m.Count(fmt.Sprintf("read_fault_variant_%d", variant), 1)
+					if !check(fmt.Sprintf("c08:flv-read-fault:v%d", variant), rd.Offset(), hdrOK, tags, err, true) {
 						return
 					}
+					wantErr = sentinel
 				}
 				m.Classf("readfault/seg%d/tags%d", si, len(f.Tags))
 			}
@@ -234,11 +252,15 @@ func TestVerif_C08_Errors(t *testing.T) {
 		mk   func() error
 	}
 	foreign := &foreignErr{"foreign failure"}
+	fmtW := fmt.Errorf("outer std wrapper: %w", io.ErrClosedPipe)
 	roots := []root{
 		{"New", func() error { return oe.New("root cause") }},
 		{"Errorf", func() error { return oe.Errorf("root %d", 42) }},
 		{"EOF", func() error { return io.EOF }},
 		{"foreign", func() error { return foreign }},
+		// roots that are standard-library wrappers (have Unwrap): Cause() must stop at them
+		{"fmt-w", func() error { return fmtW }},
+		{"net.OpError", func() error { return sentinelOp }},
 	}
 	wrappers := []string{"Wrap", "Wrapf", "WithMessage", "WithStack"}
 	apply := func(wn string, err error, level int) (error, string) {
